@@ -50,6 +50,8 @@ use std::time::Instant;
 use std::collections::VecDeque;
 
 use crate::error::{ZiporaError, Result};
+#[cfg(zipora_verif)]
+use crate::fsa::verif_sched::{self, pt, sched_point};
 // Memory pool integration (currently unused in this module)
 // use crate::memory::SecureMemoryPool;
 
@@ -356,6 +358,16 @@ pub struct VersionManager {
     token_chain_mutex: Mutex<()>,
     /// Statistics for monitoring performance.
     stats: Mutex<VersionManagerStats>,
+    /// Identity of this manager for the verification registry of destroyed managers.
+    #[cfg(zipora_verif)]
+    verif_id: u64,
+}
+
+#[cfg(zipora_verif)]
+impl Drop for VersionManager {
+    fn drop(&mut self) {
+        verif_sched::manager_dropped(self.verif_id);
+    }
 }
 
 impl VersionManager {
@@ -369,6 +381,8 @@ impl VersionManager {
             active_writers: AtomicU64::new(0),
             token_chain_mutex: Mutex::new(()),
             stats: Mutex::new(VersionManagerStats::default()),
+            #[cfg(zipora_verif)]
+            verif_id: verif_sched::new_manager_id(),
         }
     }
 
@@ -417,13 +431,21 @@ impl VersionManager {
 
         // For levels that require synchronization, acquire version under lock
         let (version, min_version) = if self.concurrency_level.requires_synchronization() {
+            #[cfg(zipora_verif)]
+            sched_point(pt::R_LOCK);
             let _lock = self.token_chain_mutex.lock().map_err(|_| {
                 ZiporaError::system_error("Failed to acquire token chain mutex for reader")
             })?;
 
+            #[cfg(zipora_verif)]
+            sched_point(pt::R_LOAD_MIN);
             let current_min = self.min_version.load(Ordering::Acquire);
+            #[cfg(zipora_verif)]
+            sched_point(pt::R_FADD_CUR);
             let version = self.current_version.fetch_add(1, Ordering::AcqRel) + 1;
 
+            #[cfg(zipora_verif)]
+            sched_point(pt::R_UNLOCK);
             (version, current_min)
         } else {
             // Single-threaded modes don't need version tracking
@@ -431,6 +453,8 @@ impl VersionManager {
         };
 
         // Increment active reader count
+        #[cfg(zipora_verif)]
+        sched_point(pt::R_INC);
         self.active_readers.fetch_add(1, Ordering::Relaxed);
 
         // Update statistics
@@ -447,6 +471,8 @@ impl VersionManager {
             Arc::new(TokenReleaseCallback {
                 version_manager: self as *const Self,
                 token_type: TokenType::Reader,
+                #[cfg(zipora_verif)]
+                verif_id: self.verif_id,
             }),
         ))
     }
@@ -467,6 +493,8 @@ impl VersionManager {
 
         // For OneWriteMultiRead, ensure no other writers are active
         if self.concurrency_level == ConcurrencyLevel::OneWriteMultiRead {
+            #[cfg(zipora_verif)]
+            sched_point(pt::W_LOAD_AW);
             let current_writers = self.active_writers.load(Ordering::Acquire);
             if current_writers > 0 {
                 return Err(ZiporaError::resource_busy(
@@ -477,19 +505,29 @@ impl VersionManager {
 
         // Acquire version under lock for synchronized levels
         let (version, min_version) = if self.concurrency_level.requires_synchronization() {
+            #[cfg(zipora_verif)]
+            sched_point(pt::W_LOCK);
             let _lock = self.token_chain_mutex.lock().map_err(|_| {
                 ZiporaError::system_error("Failed to acquire token chain mutex for writer")
             })?;
 
+            #[cfg(zipora_verif)]
+            sched_point(pt::W_LOAD_MIN);
             let current_min = self.min_version.load(Ordering::Acquire);
+            #[cfg(zipora_verif)]
+            sched_point(pt::W_FADD_CUR);
             let version = self.current_version.fetch_add(1, Ordering::AcqRel) + 1;
 
+            #[cfg(zipora_verif)]
+            sched_point(pt::W_UNLOCK);
             (version, current_min)
         } else {
             (1, 1)
         };
 
         // Increment active writer count
+        #[cfg(zipora_verif)]
+        sched_point(pt::W_INC);
         self.active_writers.fetch_add(1, Ordering::Relaxed);
 
         // Update statistics
@@ -506,12 +544,16 @@ impl VersionManager {
             Arc::new(TokenReleaseCallback {
                 version_manager: self as *const Self,
                 token_type: TokenType::Writer,
+                #[cfg(zipora_verif)]
+                verif_id: self.verif_id,
             }),
         ))
     }
 
     /// Internal method to release a reader token.
     fn release_reader_token(&self, token_version: u64) {
+        #[cfg(zipora_verif)]
+        sched_point(pt::DEC_AR);
         self.active_readers.fetch_sub(1, Ordering::Relaxed);
 
         // Update minimum version if this was the head token
@@ -527,6 +569,8 @@ impl VersionManager {
 
     /// Internal method to release a writer token.
     fn release_writer_token(&self, token_version: u64) {
+        #[cfg(zipora_verif)]
+        sched_point(pt::DEC_AW);
         self.active_writers.fetch_sub(1, Ordering::Relaxed);
 
         // Update minimum version if this was the head token
@@ -545,10 +589,20 @@ impl VersionManager {
     /// This is a simplified version - in a full implementation, this would
     /// track individual token versions in a linked list.
     fn try_advance_min_version(&self) {
+        #[cfg(zipora_verif)]
+        sched_point(pt::TA_LOAD_AR);
         if self.active_readers.load(Ordering::Relaxed) == 0
-            && self.active_writers.load(Ordering::Relaxed) == 0
+            && {
+                #[cfg(zipora_verif)]
+                sched_point(pt::TA_LOAD_AW);
+                self.active_writers.load(Ordering::Relaxed) == 0
+            }
         {
+            #[cfg(zipora_verif)]
+            sched_point(pt::TA_LOAD_CUR);
             let current = self.current_version.load(Ordering::Acquire);
+            #[cfg(zipora_verif)]
+            sched_point(pt::TA_STORE_MIN);
             self.min_version.store(current, Ordering::Release);
         }
     }
@@ -635,6 +689,9 @@ enum TokenType {
 struct TokenReleaseCallback {
     version_manager: *const VersionManager,
     token_type: TokenType,
+    /// Identity of the manager the pointer referred to when the token was issued.
+    #[cfg(zipora_verif)]
+    verif_id: u64,
 }
 
 impl std::fmt::Debug for TokenReleaseCallback {
@@ -648,6 +705,11 @@ impl std::fmt::Debug for TokenReleaseCallback {
 
 impl TokenReleaseCallback {
     fn release(&self, token_version: u64) {
+        // Verification builds observe (and skip) a release aimed at a destroyed manager.
+        #[cfg(zipora_verif)]
+        if !verif_sched::release_target_alive(self.verif_id) {
+            return;
+        }
         unsafe {
             let manager = &*self.version_manager;
             match self.token_type {
